@@ -1,5 +1,6 @@
 import ObiVerif.Props.C04
 import ObiVerif.Lemmas.WriterWfileRec
+import ObiVerif.Lemmas.CsvAuto
 /-!
 # C04 — the byte path below the writer goroutine: `Wfile` = `bufio.Writer` (→ pgzip) → file (property theorems)
 
@@ -15,7 +16,7 @@ size (0 included), every schedule of pgzip's goroutines — so every theorem of 
 -/
 set_option Elab.async false
 namespace ObiVerif.Props.C04
-open ObiVerif.Reseq ObiVerif.WriteErr ObiVerif.WriterWfile ObiVerif.WriterFmt
+open ObiVerif.Reseq ObiVerif.WriteErr ObiVerif.WriterWfile ObiVerif.WriterFmt ObiVerif.WriterOutcome
 
 /-! ## refinement: the `Wfile`-level writers are the plain writers -/
 
@@ -137,5 +138,126 @@ example : writeRawDev 4 goodBeh false true
     = (.ok, [1, 2, 3, 4, 5, 6, 7, 8, 9, 10, 11, 12, 13, 14]) := by
   rw [wfile_plain_in_order 4 true _ 3 [1, 0, 2] (by decide)]
   decide
+
+/-! ## paired output at the level of the command: `--skip-empty` cannot put the two files out of step
+
+`paired_skip_empty_out_of_step` (`Props/C04.lean`) shows that the WRITERS, given `skipEmpty` and a paired stream, leave a
+record with an empty sequence out of its own file only.  Every batch is still written exactly once and in order to both
+files (`paired_files_order_free`): the statement of C04, which is about batches, is not violated.  And no command can
+reach that combination: `CLIWriteBioSequences` — the only caller of `WritePairedReadsTo` — forwards `--skip-empty` to
+unpaired outputs only (`cliSkipEmpty`).  At the command, a paired FASTA/FASTQ output has exactly two outcomes. -/
+
+theorem keep_all_noEmpty (recs : Nat → List Rec) (n : Nat)
+    (h : (List.range n).all (fun k => noEmpty (recs k)) = true) :
+    keep ((List.range n).map recs).flatten = ((List.range n).map recs).flatten := by
+  rw [keep_flatten, List.map_map]
+  congr 1
+  apply List.map_congr_left
+  intro k hk
+  exact keep_of_noEmpty _ (List.all_eq_true.mp h k hk)
+
+/-- **`obiconvert --paired-with … --skip-empty`: in step or fatal.**  With the option set of the command (`skipEmpty` as
+`cliSkipEmpty true flag`, whatever `flag`), for every `n`, both arrival orders and ARBITRARY records: the run is fatal
+iff some record or some mate has an empty sequence; otherwise NO record is skipped in either file — file 1 is one text
+per record, file 2 one text per mate, both in batch order, so record `i` of file 2 is the mate of record `i` of file 1. -/
+theorem cli_paired_in_step_or_fatal (c : Cfg) (hk : c.kind = Kind.fasta ∨ c.kind = Kind.fastq) (flag : Bool)
+    (hse : c.skipEmpty = cliSkipEmpty true flag) (pairs : Nat → PBatch) (n : Nat) (ks1 ks2 : List Nat)
+    (hp1 : ks1.Perm (List.range n)) (hp2 : ks2.Perm (List.range n)) :
+    (writePaired c (ks1.map fun k => (k, pairs k)) (ks2.map fun k => (k, pairs k)) = none ↔
+      ∃ k, k < n ∧ ∃ p ∈ pairs k, p.1.seq = [] ∨ p.2.seq = []) ∧
+    (∀ f1 f2, writePaired c (ks1.map fun k => (k, pairs k)) (ks2.map fun k => (k, pairs k)) = some (f1, f2) →
+      f1 = (((((List.range n).map pairs).flatten).map Prod.fst).map (recText c)).flatten ∧
+      f2 = (((((List.range n).map pairs).flatten).map Prod.snd).map (recText c)).flatten) := by
+  have hse' : c.skipEmpty = false := by rw [hse]; rfl
+  have F1 := seq_file_fatal_iff c hk hse' (fun k => (pairs k).map Prod.fst) n ks1 hp1
+  have F2 := seq_file_fatal_iff c hk hse' (fun k => (pairs k).map Prod.snd) n ks2 hp2
+  have O1 := seq_file_outcomes c hk (fun k => (pairs k).map Prod.fst) n ks1 hp1
+  have O2 := seq_file_outcomes c hk (fun k => (pairs k).map Prod.snd) n ks2 hp2
+  rw [writePaired_eq]
+  constructor
+  · constructor
+    · intro h
+      cases h1 : writeFile c (ks1.map fun k => (k, (pairs k).map Prod.fst)) with
+      | none =>
+        obtain ⟨k, hkn, r, hr, hre⟩ := F1.mp h1
+        obtain ⟨p, hp, rfl⟩ := List.mem_map.mp hr
+        exact ⟨k, hkn, p, hp, Or.inl hre⟩
+      | some a =>
+        cases h2 : writeFile c (ks2.map fun k => (k, (pairs k).map Prod.snd)) with
+        | none =>
+          obtain ⟨k, hkn, r, hr, hre⟩ := F2.mp h2
+          obtain ⟨p, hp, rfl⟩ := List.mem_map.mp hr
+          exact ⟨k, hkn, p, hp, Or.inr hre⟩
+        | some b => rw [h1, h2] at h; cases h
+    · rintro ⟨k, hkn, p, hp, hre | hre⟩
+      · rw [F1.mpr ⟨k, hkn, p.1, List.mem_map.mpr ⟨p, hp, rfl⟩, hre⟩]; rfl
+      · rw [F2.mpr ⟨k, hkn, p.2, List.mem_map.mpr ⟨p, hp, rfl⟩, hre⟩]
+        cases writeFile c (ks1.map fun k => (k, (pairs k).map Prod.fst)) <;> rfl
+  · intro f1 f2 h
+    rw [hse'] at O1 O2
+    simp only [Bool.false_or] at O1 O2
+    by_cases a1 : (List.range n).all (fun k => noEmpty ((pairs k).map Prod.fst)) = true
+    · by_cases a2 : (List.range n).all (fun k => noEmpty ((pairs k).map Prod.snd)) = true
+      · rw [if_pos a1, keep_all_noEmpty _ n a1] at O1
+        rw [if_pos a2, keep_all_noEmpty _ n a2] at O2
+        rw [O1, O2] at h
+        have h' := Option.some.inj h
+        rw [flatten_map_proj, flatten_map_proj] at h'
+        exact ⟨(Prod.mk.inj h').1.symm, (Prod.mk.inj h').2.symm⟩
+      · rw [if_neg a2] at O2
+        rw [O2] at h
+        cases hw : writeFile c (ks1.map fun k => (k, (pairs k).map Prod.fst)) with
+        | none => rw [hw] at h; cases h
+        | some a => rw [hw] at h; cases h
+    · rw [if_neg a1] at O1
+      rw [O1] at h; cases h
+
+/-- non-vacuity: the stream of `paired_skip_empty_out_of_step` at the command (`--skip-empty` given) is fatal -/
+example :
+    let pairs : Nat → PBatch := fun _ =>
+      [(⟨[65], [], none, [], []⟩, ⟨[65], [99], none, [], []⟩), (⟨[66], [97], none, [], []⟩, ⟨[66], [103], none, [], []⟩)]
+    writePaired { kind := Kind.fasta, skipEmpty := cliSkipEmpty true true } ([0].map fun k => (k, pairs k))
+      ([0].map fun k => (k, pairs k)) = none := by
+  intro pairs
+  exact ((cli_paired_in_step_or_fatal { kind := Kind.fasta, skipEmpty := cliSkipEmpty true true } (Or.inl rfl) true rfl
+    pairs 1 [0] [0] (by decide) (by decide)).1).mpr ⟨0, by decide, _, List.mem_cons_self, Or.inl rfl⟩
+
+/-! ## `obicsv --auto`: the detected columns -/
+
+/-- **detected columns = sorted union of keys**: a key is a detected column iff some record of the first batch
+delivered carries it with a value that is not a map; the columns are strictly increasing in Go's string order (sorted
+by `sort.Strings`, no column twice). -/
+theorem csv_auto_columns (first : List Rec) :
+    (∀ k, k ∈ autoKeys first ↔ ∃ r ∈ first, ∃ v, (k, v) ∈ r.ann ∧ isMap v = false) ∧
+    (autoKeys first).Pairwise (fun a b => ltB a b = true) :=
+  ⟨mem_autoKeys first, autoKeys_sorted first⟩
+
+/-- **CSV file with detected columns.** The input iterator delivers batch `k0` first; the chunks reach the writer
+goroutine in any order `ks`.  The file is the header — fixed columns, explicit keys, then the detected keys — exactly
+once, first, then one row per record of ALL batches in batch order (an attribute absent from a record, or one that
+first appears in a later batch, gives the NA value / no column), and `encoding/csv`'s reader reads every field back. -/
+theorem csv_auto_file_reads_back (sh : UInt8) (o : CsvOpt) (recs : Nat → List Rec) (rows : Nat → List (List B))
+    (k0 : Nat) (rest : List Nat)
+    (hrows : ∀ k, (recs k).mapM (csvRecord sh { o with keys := o.keys ++ autoKeys (recs k0) }) = some (rows k))
+    (hhdr : CsvRT.RowOK (csvHeader { o with keys := o.keys ++ autoKeys (recs k0) }))
+    (hvis : ∀ k, ∀ row ∈ rows k, row ≠ [[]])
+    (n : Nat) (hn : 0 < n) (ks : List Nat) (hp : ks.Perm (List.range n)) :
+    ∃ out, writeCsvAuto { kind := Kind.csv, shift := sh, csv := o } ((k0 :: rest).map fun k => (k, recs k))
+        (ks.map fun k => (k, recs k)) = some out ∧
+      out = csvRow (csvHeader { o with keys := o.keys ++ autoKeys (recs k0) })
+        ++ ((((List.range n).map rows).flatten).map csvRow).flatten ∧
+      CsvRead.parse out = some ((csvHeader { o with keys := o.keys ++ autoKeys (recs k0) }
+        :: ((List.range n).map rows).flatten).map (fun r => r.map CsvRT.collapse)) :=
+  csv_file_reads_back sh { o with keys := o.keys ++ autoKeys (recs k0) } recs rows hrows hhdr hvis n hn ks hp
+
+/-- **the detected columns depend on which batch is delivered first** (a schedule-dependent header when the input
+is read by several workers; attributes that only occur in later batches get no column).  Concrete stream of two
+batches with attributes `a` / `b`: delivered in order the key columns are `a`, delivered 1 first they are `b`. -/
+theorem csv_auto_depends_on_first_batch :
+    let r0 : Rec := ⟨[120], [97], none, [], [([97], .int 1)]⟩
+    let r1 : Rec := ⟨[121], [99], none, [], [([98], .int 2)]⟩
+    (autoCfg { kind := Kind.csv } [r0]).csv.keys = [[97]] ∧ (autoCfg { kind := Kind.csv } [r1]).csv.keys = [[98]] := by
+  intro r0 r1
+  constructor <;> decide
 
 end ObiVerif.Props.C04
